@@ -403,6 +403,8 @@ def run(cx, tier='quick'):
             rep.checked.append((r, i, v))
             k += 1
     rep.counts['SCAN'] = k
+    from .helpers import check_ident_or_index
+    check_ident_or_index(cx, rep)
     rep.floor('SUM-EQ', 2)
     rep.floor('SCAN', 8)
     rep.assumptions += ['semantics of `if c { return false }` chains, `match`/`if let`, ::core::cmp::PartialEq::ne == !eq for lawful impls',
